@@ -47,6 +47,9 @@ type c19State struct {
 	active  bool
 	created int
 	log     []c19Event
+	log2    []c19Event // what a second, identical trigger registered right after the first is told
+	oneShot bool       // a second trigger on the column that drops ITSELF from inside its first callback
+	shots   int
 }
 
 func (s c19Spec) newState() eng.SeqState {
@@ -62,7 +65,7 @@ func (s c19Spec) newState() eng.SeqState {
 
 func (st *c19State) Key() (string, bool) {
 	k, _ := st.worldState.Key()
-	return fmt.Sprintf("%s trig=%v", k, st.active), st.active
+	return fmt.Sprintf("%s trig=%v once=%v", k, st.active, st.oneShot), st.active
 }
 
 func (st *c19State) show(v model.Val) string {
@@ -74,7 +77,11 @@ func (st *c19State) show(v model.Val) string {
 }
 
 // callback records what the trigger is told
-func (st *c19State) callback(r column.Reader) {
+func (st *c19State) callback(r column.Reader) { st.record(r, &st.log) }
+
+func (st *c19State) callback2(r column.Reader) { st.record(r, &st.log2) }
+
+func (st *c19State) record(r column.Reader, log *[]c19Event) {
 	k := model.Kinds[st.spec.kind]
 	e := c19Event{off: r.Index()}
 	switch {
@@ -91,7 +98,7 @@ func (st *c19State) callback(r column.Reader) {
 	default:
 		e.val = k.Show(model.Val{S: strings.Clone(r.String())})
 	}
-	st.log = append(st.log, e)
+	*log = append(*log, e)
 }
 
 // run executes a transaction and compares the trigger log with the expectation.
@@ -164,7 +171,7 @@ func (st *c19State) txn(acts []model.Act, fail bool, tag string) opx {
 				}
 			}
 		}
-		st.log = st.log[:0]
+		st.log, st.log2 = st.log[:0], st.log2[:0]
 		res := w.Txn(acts, fail)
 		vs := res.Viol
 		if w.Poisoned {
@@ -193,6 +200,11 @@ func (st *c19State) txn(acts []model.Act, fail bool, tag string) opx {
 			}
 			vs = append(vs, eng.Violation{Assert: "trigger/events", Witness: wit, ReadOnly: true,
 				Detail: fmt.Sprintf("%s: trigger was told %v, committed changes are %v", model.ActsString(acts, fail), got, want)})
+		} else if d := c19Compare(st.log2, want); d != "" {
+			// (only when the first trigger was right: the second one is there to see what
+			// happens to a trigger that has siblings before it)
+			vs = append(vs, eng.Violation{Assert: "trigger/events", Witness: d + " (second trigger on the same column)", ReadOnly: true,
+				Detail: fmt.Sprintf("%s: the second trigger was told %v, committed changes are %v", model.ActsString(acts, fail), st.log2, want)})
 		}
 		return vs
 	}}
@@ -283,10 +295,28 @@ func (s c19Spec) ops(st *c19State) (out []opx) {
 			out = append(out, st.txn([]model.Act{{Op: "del", Off: rows[1]}, {Op: "put", Off: r0, W: []model.Write{wv(v0, false)}}}, false, ""))
 		}
 	}
+	if !st.oneShot {
+		out = append(out, opx{label: "createOneShotTrigger(on v, drops itself in its first callback)", run: func() []eng.Violation {
+			st.shots++
+			name := fmt.Sprintf("once%d", st.shots)
+			if err := w.C.CreateTrigger(name, "v", func(column.Reader) {
+				if st.oneShot {
+					st.oneShot = false
+					w.C.DropTrigger(name)
+				}
+			}); err != nil {
+				return []eng.Violation{{Assert: "createtrigger", Witness: "CreateTrigger failed", Detail: err.Error()}}
+			}
+			st.oneShot = true
+			return nil
+		}})
+	}
 	if st.active {
 		out = append(out, opx{label: "dropTrigger", run: func() []eng.Violation {
-			if err := w.C.DropTrigger(fmt.Sprintf("trig%d", st.created)); err != nil {
-				return []eng.Violation{{Assert: "droptrigger", Witness: "DropTrigger failed", Detail: err.Error()}}
+			for _, name := range []string{fmt.Sprintf("trig%d", st.created), fmt.Sprintf("trig%db", st.created)} {
+				if err := w.C.DropTrigger(name); err != nil {
+					return []eng.Violation{{Assert: "droptrigger", Witness: "DropTrigger failed", Detail: err.Error()}}
+				}
 			}
 			st.active = false
 			return nil
@@ -295,6 +325,9 @@ func (s c19Spec) ops(st *c19State) (out []opx) {
 		out = append(out, opx{label: "createTrigger(on v)", run: func() []eng.Violation {
 			st.created++
 			if err := w.C.CreateTrigger(fmt.Sprintf("trig%d", st.created), "v", st.callback); err != nil {
+				return []eng.Violation{{Assert: "createtrigger", Witness: "CreateTrigger failed", Detail: err.Error()}}
+			}
+			if err := w.C.CreateTrigger(fmt.Sprintf("trig%db", st.created), "v", st.callback2); err != nil {
 				return []eng.Violation{{Assert: "createtrigger", Witness: "CreateTrigger failed", Detail: err.Error()}}
 			}
 			st.active = true
@@ -309,8 +342,8 @@ func init() {
 		Prop:  "C19",
 		Level: "model_checking",
 		Rule: "every history up to depth d over {insert with/without the watched column, overwrite, two overwrites of one row in one transaction, write to another column, merge, put+merge, " +
-			"merge+put, merge-on-insert, merge that leaves the value as it is (alone and after a put), delete, multi-row/multi-block writes, delete+write, the same ending in error, createTrigger, dropTrigger} for watched kinds int, string and record (concatenating " +
-			"merge) and bool; after every transaction the trigger log equals the model's committed stores (offset, final value) and row deletions as a multiset, in issue order per row; " +
+			"merge+put, merge-on-insert, merge that leaves the value as it is (alone and after a put), delete, multi-row/multi-block writes, delete+write, the same ending in error, createTrigger, dropTrigger, a sibling trigger that drops itself from its first callback} for watched kinds int, string and record (concatenating " +
+			"merge) and bool; after every transaction the log of the trigger (and of a second, identical trigger registered after it) equals the model's committed stores (offset, final value) and row deletions as a multiset, in issue order per row; " +
 			"states = distinct (model state, trigger active); non-trivial = trigger active",
 		Assumptions: []string{"for a bool column a store of false and a row deletion are indistinguishable to the callback and are compared as the same event"},
 		Budget:      budget(170*time.Second, 28*time.Minute),
